@@ -88,6 +88,14 @@ def run (args : List String) : Option String :=
     match unhex h, parseRange a b c d, unhex ins with
     | some t, some r, some i => some (showRes (applyChange (stripCR t) (some r) i))
     | _, _, _ => none
+  | ["editlc", h, a, b, c, d, ins] =>
+    match unhex h, parseRange a b c d, unhex ins with
+    | some t, some r, some i =>
+      some (match applyChange (stripCR t) (some r) i with
+        | .ok t' => "ok " ++ lcall t'
+        | .err => "err"
+        | .panic => "PANIC")
+    | _, _, _ => none
   | ["editfull", _h, ins] => (unhex ins).map (fun i => showRes (applyChange [] none i))
   | ["semtok", h, hls] =>
     match unhex h, parseHls hls with
